@@ -32,6 +32,7 @@ WANT_VALUE = {"datetime": "NaT", "timedelta": "NaT", "float": "nan", "integer": 
               "fixed": "na_object", "boolean": "None", "bytes": "None", "object": "None"}
 WANT_DTYPE = {"datetime": "same", "timedelta": "same", "float": "same", "integer": "float", "string": "same",
               "fixed": "same", "boolean": "object", "bytes": "object", "object": "object"}
+ALL_KINDS = set(WANT_VALUE)
 DETECTOR = {"NaT": "isnat", "nan": "isnan", "na_object": "eq_na_object", "None": "is_none"}
 
 
@@ -45,6 +46,17 @@ def kinds_of_test(test, selfname):
                 return None
             out |= k
         return out
+    if isinstance(test, ast.BoolOp) and isinstance(test.op, ast.And):
+        out = None
+        for v in test.values:
+            k = kinds_of_test(v, selfname)
+            if k is None:
+                return None
+            out = k if out is None else (out & k)
+        return out
+    if isinstance(test, ast.UnaryOp) and isinstance(test.op, ast.Not):
+        k = kinds_of_test(test.operand, selfname)
+        return None if k is None else (ALL_KINDS - k)
     if isinstance(test, ast.Call) and isinstance(test.func, ast.Attribute) and norm(test.func.value) == selfname \
             and test.func.attr in PRED and not test.args:
         return set(PRED[test.func.attr])
